@@ -116,8 +116,19 @@ class C19(Prop):
             c = CaseT(f"lib{li}", "bed", [], lines, tags={"library_schema"})
             c.expect_fields = expect if li % 9 != 8 else 3    # no schema supplied: the three-field default
             out.append(c)
+        # a supplied schema in a file with as many zoom levels as the data allows and max_zooms above the ten slots of the zoom
+        # directory (the schema text sits right behind that directory)
+        for li in range(2):
+            text = 'table deep\n"Entries with a name and a score"\n(\n    string chrom;\t"c"\n    uint chromStart;\t"s"\n    uint chromEnd;\t"e"\n    string name;\t"n"\n    uint score;\t"x"\n)\n'
+            pos = [0] + [200 * 4 ** j for j in range(13)]
+            lines = [f"OPT compress=0 ips=1 bs=256 zooms=auto izs={(64, 160)[li]} nzooms={(12, 15)[li]} pass={1 + li} src=iter sort=all", "CHROM chr1 4294967295"] + \
+                    [f"E chr1 {p_} {p_ + 1} " + ("n" * 60 + "\t%d" % i).encode().hex() for i, p_ in enumerate(pos)] + ["AUTOSQL " + text.encode().hex()]
+            c = CaseT(f"libdeep{li}", "bed", [], lines, tags={"library_schema", "deep_zoom_pyramid"})
+            c.expect_fields = 5
+            out.append(c)
         # schemas longer than any I/O buffer (8 KiB): stored, returned and counted in full
-        for li, nf in enumerate((150, 260) if tier != "thorough" else (150, 200, 260, 600)):
+        # … and longer than 64 KiB (nf = 800: about 76 KB), beyond any 16-bit length or "reasonable" cap a reader might apply
+        for li, nf in enumerate((150, 260, 800) if tier != "thorough" else (150, 200, 260, 600, 800, 1500)):
             text = 'table wide\n"A table with many documented columns"\n(\n' + "".join(
                 f'    {"string" if i % 3 else "uint"} column{i};\t"Documentation of column number {i}, as long as such comments are"\n' for i in range(nf)) + ")\n"
             for dm in ("", " destmax=4096", " destmax=1000"):
